@@ -159,9 +159,12 @@ for nm, exp in (("plain", 60), ("cost_rate", 140), ("cost_total", 140), ("lot_ra
 # --------------------------------------------------------------------------- C02
 prop("C02", title="Balance assertions are enforced exactly and in file order",
      level_text="Bounded model checking of one posting step from an ARBITRARY valid running balance of the account over two commodities "
-                "(inductive step, so any history): quick tier = the two mechanisms process_posting composes (Balance::add_posting_amount then "
-                "Amount::assert_balance) for `= e X`, `= e Y`, bare `= 0`; thorough tier = the real process_posting on a syntax-tree posting "
-                "`A  v X = e`, checking the verdict, that the error carries this posting's account and assertion spans, and the post-state. "
+                "(inductive step, so any history). Quick tier: (1) the two mechanisms process_posting composes (Balance::add_posting_amount then "
+                "Amount::assert_balance) for `= e X`, `= e Y`, bare `= 0` from a pre-balance with symbolic zero-ness; (2) the REAL process_posting "
+                "on a syntax-tree posting `A  v X = e` from pre-states of concrete shape with symbolic non-zero values (account never posted "
+                "to; holding X and Y; holding X only), amounts at scale 2 with an optional coarser declared precision (so 'equal after "
+                "rounding' differs from 'equal'): the verdict, that the error carries this posting's account and assertion spans, the "
+                "stored amount and the post-state. Thorough tier: the same through process_posting from the arbitrary pre-balance. "
                 "Rendered computed/diff text, several assertions inside one transaction through add_transaction, aliases/includes are outside.",
      level_note="Trusted: Kani/CBMC; verif_map (capacity 2), verif_dec, bump, fmt stubs; the pre-balance is built with the Balance API from "
                 "two symbolic 16-bit values (the representation invariant 'no stored zero' is itself asserted after every step).")
@@ -172,6 +175,16 @@ for nm, exp in (("same_commodity", 135), ("other_commodity", 135), ("bare_zero",
       models=[DEC, MAPND],
       oracle="assert_balance returns absolute zero <=> (pre + v)[commodity] == e (bare 0: everything zero); diff = asserted - computed; "
              "running balance = pre + v with no zero entries")
+for nm, shape, kind, exp in (("c02_assert_fresh_account", "account A never posted to", "= e X", 160),
+                             ("c02_step_two_same", "A holds a X and b Y (both non-zero)", "= e X", 400),
+                             ("c02_step_two_other", "A holds a X and b Y (both non-zero)", "= e Y", 400),
+                             ("c02_step_one_bare_zero", "A holds a X (non-zero)", "bare = 0", 400)):
+    H("C02", file="core/book_keeping.rs", name=nm, timeout=2400, expect_s=exp, recursion=REC0, map_cap=2, mem_gb=10,
+      functions=["process_posting", "ComputedPosting::compute_from_syntax", "Balance::add_posting_amount", "Amount::assert_balance", "Amount::round (must not be applied)"],
+      bound="pre-state: %s; posting `A  v X %s` as a tracked syntax tree with spans; v, e 16-bit at scale 2; precision 1 declared for X or not; unwind 6" % (shape, kind),
+      models=[FMT, DEC, MAP, BUMP, RECNOTE],
+      oracle="Ok <=> assertion exactly true after applying this posting; Err = BalanceAssertionFailure with this posting's spans; stored amount = v X; "
+             "post-balance = pre + v")
 for nm in ("same_commodity", "other_commodity", "bare_zero"):
     H("C02", file="core/book_keeping.rs", name="c02_assert_" + nm, tier="thorough", timeout=3000, expect_s=780, recursion=REC0, map_cap=2,
       mem_gb=24,
